@@ -1,6 +1,7 @@
 package eng
 
 import (
+	"syscall"
 	"os"
 	"bufio"
 	"fmt"
@@ -50,6 +51,8 @@ func StartSolver(kind string, timeoutMs int) (*Solver, error) {
 		return nil, err
 	}
 	cmd.Stderr = cmd.Stdout
+	// a solver must not outlive the checker (a killed check would leave it spinning on its last query)
+	cmd.SysProcAttr = &syscall.SysProcAttr{Pdeathsig: syscall.SIGKILL}
 	if err := cmd.Start(); err != nil {
 		return nil, err
 	}
